@@ -64,7 +64,7 @@ def main():
             "add_only": True,
         },
         "engines": [
-            {"name": "fuzz", "path": "/verif/fuzz", "serves_properties": ["C01", "C07", "C08", "C09", "C20"], "kind_free_text": "cargo-fuzz 0.13 / libFuzzer targets (thorough tier only): bytes -> the same u64 choice words -> the same evaluators as tfcheck; seeded and empty corpus, fixed -runs"},
+            {"name": "fuzz", "path": "/verif/fuzz", "serves_properties": ["C01", "C02", "C03", "C04", "C05", "C06", "C07", "C08", "C09", "C10", "C13", "C19", "C20"], "kind_free_text": "cargo-fuzz 0.13 / libFuzzer targets (thorough tier only): bytes -> the same u64 choice words -> the same evaluators as tfcheck; seeded and empty corpus, fixed -runs"},
             {"name": "iso_runners", "path": "/verif/harness_iso", "serves_properties": ["C11"], "kind_free_text": "two tiny server binaries (harness_iso/std, harness_iso/nostd), each its own cargo workspace compiled with exactly one feature configuration of the copy of /repo's working tree and no other dependency; tfcheck's C11/isolated_configurations sends generated operand words to both over pipes and compares the returned words"},
             {"name": "tfcheck", "path": "/verif/harness/tfcheck", "serves_properties": sorted(CHECKS), "kind_free_text": "proptest 1.11 TestRunner over u64 choice sequences decoded by constructive generators, followed by a targeted-search (hill-climbing on log2(error/bound)) phase; exact dyadic + 384-bit elementary-function oracle (harness/oracle); replay files in replays/<id>/"},
         ],
